@@ -66,6 +66,9 @@ func builtinNumberToExponential(call FunctionCall) Value {
 	if call.This.IsNaN() {
 		return stringValue("NaN")
 	}
+	if value := call.This.float64(); math.IsInf(value, 0) {
+		return stringValue(floatToString(value, 64))
+	}
 	precision := float64(-1)
 	if value := call.Argument(0); value.IsDefined() {
 		precision = toIntegerFloat(value)
@@ -79,6 +82,9 @@ func builtinNumberToExponential(call FunctionCall) Value {
 func builtinNumberToPrecision(call FunctionCall) Value {
 	if call.This.IsNaN() {
 		return stringValue("NaN")
+	}
+	if value := call.This.float64(); math.IsInf(value, 0) {
+		return stringValue(floatToString(value, 64))
 	}
 	value := call.Argument(0)
 	if value.IsUndefined() {
